@@ -6,7 +6,7 @@ import vlib
 from props import optics_common as oc
 
 VIA = {"product": "VProduct", "spectrum": "VSpectrum", "shape": "VShape"}
-DYNARG = {"val": 0, "other": 1, "nil": 2, "typednil": 3}
+DYNARG = {"val": 0, "other": 1, "nil": 2, "typednil": 3, "slice": 4, "ptrptr": 5}
 
 
 def copt(l, panicked):
